@@ -33,6 +33,7 @@ func verifHarnessC18() {
 	verifAssert(err == nil, "C18.open-err")
 	m := newVModel(len(kp.keys))
 	ops := vOpsFromMask(verifParam("ops"))
+	vPrefill(db, kp, m, "C18")
 	// premerge: an earlier merge generation (history, Merge, restart = adoption) before the one under test, so
 	// that the data directory already holds merged files and a hint file when the second merge runs
 	if pm := verifParam("premerge"); pm > 0 {
